@@ -24,11 +24,29 @@ theorem instant_of_normalised (t : Ts) (h0 : 0 ≤ t.nanos) (h1 : t.nanos < 1000
   have hm : t.nanos % 1000000000 = t.nanos := by omega
   simp [Ts.instant, hq, hm]
 
+/-- **The key the code compares is the instant.**  `instant` in modules/vikja/state.go returns periods of four seconds and
+    nanoseconds into the period; comparing those pairs is comparing the instants, for all timestamps: no overflow, no
+    saturation (the corrections F43b, F43c of the repair F43). -/
+theorem key_order (a b : Ts) :
+    (a.key.1 < b.key.1 ∨ (a.key.1 = b.key.1 ∧ a.key.2 < b.key.2)) ↔
+    (a.instant.1 < b.instant.1 ∨ (a.instant.1 = b.instant.1 ∧ a.instant.2 < b.instant.2)) := by
+  simp only [Ts.key, Ts.instant]
+  omega
+
+/-- ... and the numbers the code handles stay inside int64 whatever the fields hold -/
+theorem key_in_range (t : Ts) (hs : -9223372036854775808 ≤ t.secs ∧ t.secs ≤ 9223372036854775807)
+    (hn : -2147483648 ≤ t.nanos ∧ t.nanos ≤ 2147483647) :
+    -2305843009213693953 ≤ t.key.1 ∧ t.key.1 ≤ 2305843009213693952 ∧ 0 ≤ t.key.2 ∧ t.key.2 < 4000000000 := by
+  simp only [Ts.key]
+  omega
+
 -- one second and two thousand million nanoseconds less: the instant 999 s, older than 1000 s (the order of the fields says
--- the opposite: the correction of F43); and the top of the int64 range is the latest instant, not the oldest (F43)
+-- the opposite: F43b); the top of the int64 range is the latest instant, not the oldest (F43); and past the top the order
+-- goes on (F43c: {MaxInt64 s, 1e9 ns} is later than {MaxInt64 s, 5 ns})
 example : (⟨1001, -2000000000⟩ : Ts).before ⟨1000, 0⟩ = true ∧ (⟨999, 2000000000⟩ : Ts).before ⟨1000, 0⟩ = false ∧
           (⟨1790000000, 0⟩ : Ts).before ⟨9223372036854775807, 0⟩ = true ∧
-          (⟨9223372036854775807, 1500000000⟩ : Ts).instant = (9223372036854775807, 500000000) := by decide
+          (⟨9223372036854775807, 5⟩ : Ts).before ⟨9223372036854775807, 1000000000⟩ = true ∧
+          (⟨-9223372036854775808, -500000000⟩ : Ts).before ⟨-9223372036854775808, 0⟩ = true := by decide
 
 /-- `before` is a strict order: irreflexive and transitive, and its negation is total -/
 theorem before_irrefl (a : Ts) : a.before a = false := by
